@@ -1,6 +1,7 @@
 package main
 
 import (
+	"verif/mc/sphere"
 	"fmt"
 	"math"
 	"strconv"
@@ -46,6 +47,16 @@ func init() {
 	// approximation (mid latitude, polar cap, across the antimeridian)
 	for _, c := range c08Circles {
 		circleProbes = append(circleProbes, geojson.NewCircle(geometry.Point{X: c[0], Y: c[1]}, c[2], 64))
+	}
+	// points just inside the rim of those circles, all around (for documents holding the circles as children)
+	for _, c := range c08Circles {
+		for b := 0.0; b < 360; b += 15 {
+			pl, po := sphere.Dest(c[1], c[0], c[2]*0.999, b)
+			if po > 180 {
+				po -= 360
+			}
+			circleProbes = append(circleProbes, geojson.NewPoint(geometry.Point{X: po, Y: pl}))
+		}
 	}
 }
 
@@ -190,7 +201,19 @@ func c06One(text string, os optSet, emit func(class string, c rt.Case, exp, got 
 	if jv, e := refdoc.ParseJSON(text); e != nil || jv.HasNonFinite() {
 		return // stated for finite numbers
 	}
+	// the way a reply writer does it: append into its own buffer, which it
+	// re-uses afterwards (the object must not keep any part of it)
+	tmp := obj.AppendJSON(make([]byte, 0, 128))
+	j0 := string(tmp)
+	tmp = tmp[:cap(tmp)]
+	for i := range tmp {
+		tmp[i] = 0xEE
+	}
 	j1 := obj.JSON()
+	if j1 != j0 {
+		emit("output-changed-after-buffer-reuse", mk(), j0, j1)
+		return
+	}
 	if _, e := refdoc.ParseJSON(j1); e != nil {
 		emit("output-not-json", mk(), "valid JSON", j1)
 		return
